@@ -152,7 +152,7 @@ def r7_edge_clamps(ck, P):
 
 
 def r5_trap_shortcut(ck, P):
-    R = ck.rule('C03-R5', 'the direct-rasterise shortcut of pixman_composite_trapezoids is taken only for ADD, an opaque source, a mask format equal to the destination\'s and an unclipped destination', floor=1)
+    R = ck.rule('C03-R5', 'the direct-rasterise shortcut of pixman_composite_trapezoids is taken only for ADD, an opaque source, a mask format equal to the destination\'s, an unclipped destination and a source without an effective clip', floor=1)
     f = P.fn('pixman_composite_trapezoids'); ck.saw(f)
     C = consts.fast_path_flags()
     add = P.enum_const('PIXMAN_OP_ADD')
@@ -164,11 +164,20 @@ def r5_trap_shortcut(ck, P):
         for br, succ in f.guard_edges(c.bb.id):
             if br.a:
                 ats |= f.atoms(br.a[0])
+        def excluded_when(root, fields):
+            """is the direct call unreachable once the given fields of that image are all non-zero?  (partial evaluation: the
+            conditions may be spread over a short-circuit chain that no single edge dominates)"""
+            def known(x):
+                if x.op == 'load' and f.root(f.path(x.a[0])) == root and f.last_field(f.path(x.a[0])) in fields:
+                    return 1
+                return None
+            return not common.reach_under(f, known, {c.bb.id})
         need = {
             'operator == ADD': ('arg', 0) in ats and ('const', add) in ats,
             'source opaque (flags & IS_OPAQUE)': ('field', 'image_common.flags') in ats and ('const', C['FAST_PATH_IS_OPAQUE']) in ats,
             'mask_format == destination format': ('arg', 3) in ats and ('field', 'image_common.extended_format_code') in ats,
-            'destination has no clip region': ('field', 'image_common.have_clip_region') in ats,
+            'destination has no clip region': excluded_when(('arg', 2), {'image_common.have_clip_region'}),
+            'source has no effective clip (have_clip_region && clip_sources && client_clip)': excluded_when(('arg', 1), {'image_common.have_clip_region', 'image_common.clip_sources', 'image_common.client_clip'}),
         }
         miss = [k for k, v in need.items() if not v]
         if miss:
